@@ -73,6 +73,14 @@ type FuncGen struct {
 	pendingTrace *traceRec
 	lastAssert map[string]int
 	ownAllocs  []string
+	known      map[string]touched
+	depsCache  map[string][]string
+	recording  map[string]bool
+	boundary   *State
+	muted      bool
+	ownMods    map[string][]string // component -> references this function stored to itself ("*" = unknown)
+	storeRefHint string
+	inCallHavoc bool
 	inInv      bool
 	dirty      map[string]bool
 	callEpoch  int
@@ -111,7 +119,7 @@ func (fg *FuncGen) taint(format string, a ...any) {
 }
 
 func (fg *FuncGen) assume(f string) {
-	if f == "" || f == "true" {
+	if f == "" || f == "true" || fg.muted {
 		return
 	}
 	// one assertion per conjunct (finer relevance slicing)
@@ -326,7 +334,9 @@ func (fg *FuncGen) rootSet(st *State, l *Loc, v string) {
 		st.cells[l.Alloc] = fg.named("c_"+l.Alloc.Comment, fg.enc.sortOf(l.Root), v)
 	case lField, lBox:
 		c := fg.comps[l.Comp]
+		fg.storeRefHint = l.Ref
 		fg.set(st, c, fmt.Sprintf("(store %s %s %s)", fg.get(st, c), l.Ref, v))
+		fg.storeRefHint = ""
 	case lElem:
 		c := fg.comps[l.Comp]
 		h := fg.get(st, c)
@@ -401,6 +411,8 @@ func (fg *FuncGen) embRef(st types.Type, field int, ref string) string {
 	fg.enc.declFun(fn+"_inv", []string{"Int"}, "Int")
 	fg.enc.declFun("embkind", []string{"Int"}, "Int")
 	t := fmt.Sprintf("(%s %s)", q(fn), ref)
+	fg.enc.declFun("rootOf", []string{"Int"}, "Int")
+	fg.assume(fmt.Sprintf("(= (rootOf %s) (rootOf %s))", t, ref))
 	id := fg.enc.typeID(st)*100 + field + 1
 	fg.assume(and(fmt.Sprintf("(= (%s %s) %s)", q(fn+"_inv"), t, ref), fmt.Sprintf("(= (embkind %s) %d)", t, id),
 		implies(fmt.Sprintf("(not (= %s 0))", ref), fmt.Sprintf("(< %s 0)", t)), implies(fmt.Sprintf("(= %s 0)", ref), fmt.Sprintf("(= %s 0)", t))))
@@ -432,6 +444,10 @@ func (fg *FuncGen) loadRef(st *State, ref string, t types.Type) string {
 }
 
 func (fg *FuncGen) storeRef(st *State, ref string, t types.Type, v string) {
+	if fg.storeRefHint == "" {
+		fg.storeRefHint = ref
+		defer func() { fg.storeRefHint = "" }()
+	}
 	switch u := t.Underlying().(type) {
 	case *types.Struct:
 		v = fg.named("sv", fg.enc.sortOf(t), v)
@@ -716,6 +732,7 @@ func (fg *FuncGen) run() {
 				fg.assume(fg.trBool(r.Expr, ienv))
 			}
 		}
+		fg.checkedClauses()
 		// vacuity: the preconditions (with type facts) must be satisfiable
 		if len(fg.ct.Requires) > 0 {
 			o := &Obligation{Name: fg.oblName("vacuity", "requires satisfiable"), Kind: "vacuity", Func: funcDisplayName(fn), Props: fg.props,
@@ -1086,6 +1103,44 @@ func (fg *FuncGen) preregisterTraces() {
 			for i := 0; i < rs.Len(); i++ {
 				fg.ghostSort[fmt.Sprintf("$callres:%s:%d", cl.name, i)] = fmt.Sprintf("(Array Int %s)", fg.enc.sortOf(rs.At(i).Type()))
 			}
+		}
+	}
+}
+
+// checkedClauses: facts a run-time builtin relies on because its load-time checker accepted
+// the call (`//@ pairs XChecking`, `//@ checked <fact>`).  Each fact is proved as a lemma from
+// the checker's postconditions (evaluated on the same node, in the same state: the tree is not
+// modified between load and run, see the write-set property) and then assumed.
+func (fg *FuncGen) checkedClauses() {
+	ct := fg.ct
+	if ct == nil || len(ct.Checked) == 0 {
+		return
+	}
+	var ante []string
+	if ct.Pairs == "" {
+		fg.g.bindErrors = append(fg.g.bindErrors, ct.Key+": checked clauses without `pairs`")
+	} else {
+		chk := fg.g.cs.ByKey["func "+ct.Pkg+" "+ct.Pairs]
+		if chk == nil {
+			fg.g.bindErrors = append(fg.g.bindErrors, ct.Key+": pairs "+ct.Pairs+": no such contract")
+		} else {
+			_, names := fg.g.contractSig(chk)
+			env := fg.implEnv(fg.entry, fg.entry, names)
+			env.results = []Val{{T: "0", Typ: fg.fn.Signature.Results().At(0).Type()}}
+			for _, en := range chk.Ensures {
+				fg.clausePkg(env, en)
+				ante = append(ante, fg.trBool(en.Expr, env))
+			}
+		}
+	}
+	env := fg.ownEnv(fg.entry, fg.entry)
+	for _, cl := range ct.Checked {
+		t := fg.trBool(cl.Expr, env)
+		if ct.Pairs != "" {
+			fg.obligeAt("lemma", "accepted by "+ct.Pairs+" implies "+cl.Text, "true", implies(and(ante...), t), cl.Props, cl.Text)
+			fg.assume(t)
+		} else {
+			fg.assume(t)
 		}
 	}
 }
